@@ -423,6 +423,11 @@ def run (c : Cfg) (d : Option Wl) : List Step → List (Out StepOut)
     | .panic => [.panic]
     | .val o => .val o :: run c o.wl ss
 
+/-- the outcomes of a list of step results up to the first panic -/
+def valsOf : List (Out StepOut) → List StepOut
+  | .val o :: os => o :: valsOf os
+  | _ => []
+
 /-- the outcomes of a walk up to the first panic of the controller -/
 def runV (c : Cfg) (d : Option Wl) : List Step → List StepOut
   | [] => []
